@@ -86,7 +86,7 @@ func (d compDirective) ToA(values ...string) Action {
 		for _, v := range values {
 			extensions = append(extensions, "."+v)
 		}
-		return ActionFiles(extensions...)
+		action = ActionFiles(extensions...)
 	case len(values) == 0 && !d.matches(cobra.ShellCompDirectiveNoFileComp):
 		action = ActionFiles()
 	default:
